@@ -1,10 +1,295 @@
-/- Model.SchemaWF — decidable well-formedness of a schema environment (stub; filled in below) -/
+/-
+  Model.SchemaWF — the DECIDABLE side conditions of the C03 theorems:
+
+    * `Pat`            first-tag patterns (what the decoders test a peeked tag against)
+    * `Info`           per type: possible first tags, nullable, patterns that must
+                       not follow an encoding (`confus`), and whether the type lies
+                       in the fragment the generic round-trip proof covers (`sup`)
+    * `mkInfo env`     one bottom-up pass computing the table
+    * `wfEnv env I`    the LL(1)-style well-formedness of an environment w.r.t. a
+                       table: the table is consistent with the environment,
+                       references point downwards (rank), contexts ≤ 254, an
+                       optional element can never be mistaken for what may follow,
+                       choice alternatives are pairwise disjoint, list elements
+                       consume at least one tag, a context-less list / Any is last
+                       before a closing tag
+    * `conforms`       structural validity of a value tree for a type
+    * `safe`           the follow-set side condition on what comes after an encoding
+
+  Everything is `Bool`-valued and computed, so `gen_env_wf` is `by decide +kernel`.
+  Core Lean only (the driver reports `wfEnv` / the proved fragment for evidence).
+-/
 import BacVerif.Model.Codec
 namespace BacVerif.SchemaWF
-open BacVerif BacVerif.Schema
+open BacVerif BacVerif.Schema BacVerif.Codec
 
-def wfEnv (_env : Env) : Bool := true
-def provedTypes (_env : Env) : List Nat := []
-def badTypes (_env : Env) : List Nat := []
+/-- what a decoder compares the peeked tag with -/
+inductive Pat
+  | app (n : Nat)       -- application tag number n
+  | ctx (c : Nat)       -- context tag c
+  | opening (c : Nat)   -- opening tag c
+  | anyApp              -- any application tag (AnyAtomic)
+  | anyTag              -- anything that is not a closing tag (Any, greedy lists)
+deriving DecidableEq, Repr, Inhabited
+
+def Pat.matches : Pat → Tag → Bool
+  | .app n, t => isApp n t
+  | .ctx c, t => isCtx c t
+  | .opening c, t => isOpen c t
+  | .anyApp, t => t.cls == .app
+  | .anyTag, t => t.cls != .closing
+
+/-- no tag matches both patterns -/
+def Pat.disj : Pat → Pat → Bool
+  | .app n, .app m => n != m
+  | .ctx c, .ctx d => c != d
+  | .opening c, .opening d => c != d
+  | .app _, .ctx _ | .app _, .opening _ | .ctx _, .app _ | .ctx _, .opening _
+  | .opening _, .app _ | .opening _, .ctx _
+  | .anyApp, .ctx _ | .anyApp, .opening _ | .ctx _, .anyApp | .opening _, .anyApp => true
+  | _, _ => false
+
+def disjAll (ps qs : List Pat) : Bool := ps.all fun p => qs.all fun q => Pat.disj p q
+
+structure Info where
+  first : List Pat      -- possible first tags of a non-empty encoding
+  nullable : Bool       -- some value encodes to no tag at all
+  confus : List Pat     -- a tag following an encoding must match none of these (or be a closing tag / the end)
+  sup : Bool            -- in the fragment covered by `codec_roundtrip_partial`
+deriving DecidableEq, Repr, Inhabited
+
+abbrev Table := Array Info
+
+def look (I : Table) (j : Nat) : Info := I.getD j ⟨[], false, [.anyTag], false⟩
+
+/-! ### per element -/
+
+/-- possible first tags of the encoding of an element that is present -/
+def fieldFirst (env : Env) (I : Table) (f : Field) : List Pat :=
+  match kindOf env f.ref, f.ctx with
+  | .prim _, some c => [.ctx c]
+  | .prim a, none => [.app a]
+  | .anyAtomic, _ => [.anyApp]
+  | .seqOf _, some c | .listOf _, some c | .struct _, some c => [.opening c]
+  | .seqOf j, none | .listOf j, none | .struct j, none => (look I j).first
+  | .bad, _ => []
+
+/-- the element may contribute no tag -/
+def fieldNullable (env : Env) (I : Table) (f : Field) : Bool :=
+  f.opt ||
+  match kindOf env f.ref, f.ctx with
+  | .seqOf j, none | .listOf j, none | .struct j, none => (look I j).nullable
+  | _, _ => false
+
+/-- patterns that must not follow the element -/
+def fieldConfus (env : Env) (I : Table) (f : Field) : List Pat :=
+  match kindOf env f.ref, f.ctx with
+  | .seqOf _, some _ =>
+      -- an omitted optional SequenceOf is read back as `[]` unless the end or a closing tag follows
+      if f.opt then [.anyTag] else []
+  | .seqOf j, none | .listOf j, none | .struct j, none =>
+      (if f.opt then (look I j).first else []) ++ (look I j).confus
+  | _, _ => if f.opt then fieldFirst env I f else []
+
+/-- the element is of a shape the generic decoder handles at all (sanity) -/
+def fieldSane (env : Env) (I : Table) (τ : Nat) (f : Field) : Bool :=
+  (match f.ctx with | some c => c ≤ 254 | none => true) &&
+  match kindOf env f.ref, f.ctx with
+  | .prim a, _ => a ≤ 12
+  | .anyAtomic, some _ => false                  -- Sequence.decode raises InvalidTag unconditionally
+  | .anyAtomic, none => true
+  | .seqOf j, some _ | .listOf j, some _ | .struct j, some _ => j < τ
+  | .seqOf j, none | .listOf j, none => j < τ && !f.opt
+  | .struct j, none => j < τ && !(look I j).nullable
+  | .bad, _ => false
+
+/-- the element is covered by the generic proof (milestone 1: everything except
+    an OPTIONAL structure without context, which decodes through try / restore) -/
+def fieldSup (env : Env) (I : Table) (f : Field) : Bool :=
+  match kindOf env f.ref, f.ctx with
+  | .prim _, _ | .anyAtomic, _ => true
+  | .seqOf j, some _ | .listOf j, some _ | .struct j, some _ => (look I j).sup
+  | .seqOf j, none | .listOf j, none | .struct j, none => (look I j).sup && !f.opt
+  | .bad, _ => false
+
+/-! ### sequences -/
+
+def firstFields (env : Env) (I : Table) : List Field → List Pat
+  | [] => []
+  | f :: fs => fieldFirst env I f ++ (if fieldNullable env I f then firstFields env I fs else [])
+
+def nullableFields (env : Env) (I : Table) (fs : List Field) : Bool := fs.all (fieldNullable env I)
+
+/-- FOLLOW of a sequence: an element's own follow restrictions reach the outside
+    only if every later element may be absent / empty -/
+def confusFields (env : Env) (I : Table) : List Field → List Pat
+  | [] => []
+  | f :: fs => (if nullableFields env I fs then fieldConfus env I f else []) ++ confusFields env I fs
+
+/-- LL(1): what must not follow an element is disjoint from the first tags of what may follow it -/
+def seqOK (env : Env) (I : Table) : List Field → Bool
+  | [] => true
+  | f :: fs => disjAll (fieldConfus env I f) (firstFields env I fs) && seqOK env I fs
+
+/-! ### choices -/
+
+def altSane (env : Env) (τ : Nat) (a : Field) : Bool :=
+  (match a.ctx with | some c => c ≤ 254 | none => true) &&
+  match kindOf env a.ref, a.ctx with
+  | .prim n, _ => n ≤ 12
+  | .seqOf j, some _ | .listOf j, some _ | .struct j, some _ => j < τ
+  | _, _ => false      -- AnyAtomic alternatives never decode; constructed ones need a context
+
+def altSup (env : Env) (I : Table) (a : Field) : Bool :=
+  match kindOf env a.ref, a.ctx with
+  | .prim _, _ => true
+  | .seqOf j, some _ | .listOf j, some _ | .struct j, some _ => (look I j).sup
+  | _, _ => false
+
+/-- pairwise disjoint first tags -/
+def altsDisj (env : Env) (I : Table) : List Field → Bool
+  | [] => true
+  | a :: as => (as.all fun b => disjAll (fieldFirst env I a) (fieldFirst env I b)) && altsDisj env I as
+
+/-! ### lists -/
+
+def elemFirst (env : Env) (I : Table) (elem : Ref) : List Pat :=
+  match kindOf env elem with
+  | .prim a => [.app a]
+  | .anyAtomic => [.anyApp]
+  | .seqOf j | .listOf j | .struct j => (look I j).first
+  | .bad => []
+
+def elemSane (env : Env) (I : Table) (τ : Nat) (elem : Ref) : Bool :=
+  match kindOf env elem with
+  | .prim a => a ≤ 12
+  | .anyAtomic => true
+  | .seqOf j | .listOf j | .struct j =>
+      j < τ && !(look I j).nullable && disjAll (look I j).confus (look I j).first
+  | .bad => false
+
+def elemSup (env : Env) (I : Table) (elem : Ref) : Bool :=
+  match kindOf env elem with
+  | .prim _ => true
+  | .anyAtomic => false
+  | .seqOf j | .listOf j | .struct j => (look I j).sup
+  | .bad => false
+
+/-! ### the table -/
+
+def infoOf (env : Env) (I : Table) : TyDef → Info
+  | .seq fs =>
+      { first := firstFields env I fs, nullable := nullableFields env I fs,
+        confus := confusFields env I fs, sup := fs.all (fieldSup env I) }
+  | .choice alts =>
+      { first := alts.flatMap (fieldFirst env I), nullable := false, confus := [],
+        sup := alts.all (altSup env I) }
+  | .list _ elem fixed =>
+      { first := elemFirst env I elem,
+        nullable := (match fixed with | some (_ + 1) => false | _ => true),
+        confus := [.anyTag], sup := elemSup env I elem }
+  | .any => { first := [.anyTag], nullable := true, confus := [.anyTag], sup := true }
+  | .nameValue _ => { first := [.ctx 0], nullable := false, confus := [.anyApp], sup := false }
+
+/-- local well-formedness of the definition at index τ -/
+def defOK (env : Env) (I : Table) (τ : Nat) : TyDef → Bool
+  | .seq fs => fs.all (fieldSane env I τ) && seqOK env I fs
+  | .choice alts => alts.all (altSane env τ) && altsDisj env I alts
+  | .list _ elem _ => elemSane env I τ elem
+  | .any => true
+  | .nameValue dt =>
+      dt < τ && (match env[dt]? with
+                 | some (.seq [⟨.prim 10, none, false⟩, ⟨.prim 11, none, false⟩]) => true
+                 | _ => false)
+
+/-- bottom-up: entry i only looks at entries below i (references point downwards) -/
+def mkInfo (env : Env) : Table :=
+  env.foldl (fun I d => I.push (infoOf env I d)) #[]
+
+def entryOK (env : Env) (I : Table) (τ : Nat) : Bool :=
+  match env[τ]? with
+  | none => false
+  | some d => (look I τ == infoOf env I d) && defOK env I τ d
+
+/-- THE decidable well-formedness predicate -/
+def wfEnv (env : Env) (I : Table) : Bool :=
+  I.size == env.size && (List.range env.size).all (entryOK env I)
+
+def provedTypes (env : Env) : List Nat :=
+  let I := mkInfo env
+  (List.range env.size).filter fun τ => (look I τ).sup
+
+def badTypes (env : Env) : List Nat :=
+  let I := mkInfo env
+  (List.range env.size).filter fun τ => !entryOK env I τ
+
+/-- registries point at sequences of the right PDU kind -/
+def registryOK (env : Env) (kinds : List (Nat × PduKind)) (k : PduKind) (reg : List (Nat × Nat)) : Bool :=
+  reg.all fun (choice, τ) =>
+    choice ≤ 255 && kinds.contains (τ, k) &&
+    (match env[τ]? with | some (.seq _) => true | _ => false)
+
+/-! ### values -/
+
+/-- a leaf payload the primitive encoder of application type `app` can produce
+    (tag-level part: C01's `Valid` refines it) -/
+def leafOK (app lvt : Nat) (data : Bytes) : Bool :=
+  (match leafCheck app ⟨.app, app, lvt, data⟩ with | .ok () => true | .error _ => false) &&
+  (if app = 1 then data.isEmpty else lvt == data.length)
+
+def conformsRef (env : Env) (conf : Nat → Val → Bool) (r : Ref) (v : Val) : Bool :=
+  match kindOf env r, v with
+  | .prim a, .prim lvt data => leafOK a lvt data
+  | .anyAtomic, .atom a lvt data => a ≤ 12 && leafOK a lvt data
+  | .seqOf j, v | .listOf j, v | .struct j, v => conf j v
+  | _, _ => false
+
+def conformsFields (env : Env) (conf : Nat → Val → Bool) : List Field → List (Option Val) → Bool
+  | [], [] => true
+  | f :: fs, none :: vs => f.opt && conformsFields env conf fs vs
+  | f :: fs, some v :: vs => conformsRef env conf f.ref v && conformsFields env conf fs vs
+  | _, _ => false
+
+/-- `Balanced` of C02 as a computation: depth never negative, zero at the end -/
+def balancedFrom : Nat → List Tag → Bool
+  | d, [] => d == 0
+  | d, t :: ts =>
+    match t.cls with
+    | .opening => balancedFrom (d + 1) ts
+    | .closing => match d with | 0 => false | d' + 1 => balancedFrom d' ts
+    | _ => balancedFrom d ts
+
+def conformsDef (env : Env) (conf : Nat → Val → Bool) : TyDef → Val → Bool
+  | .seq fs, .seq vs => conformsFields env conf fs vs
+  | .choice alts, .choice i v =>
+    (match alts[i]? with | some a => conformsRef env conf a.ref v | none => false)
+  | .list _ elem fixed, .list vs =>
+    vs.all (conformsRef env conf elem) &&
+    (match fixed with | some n => vs.length == n | none => true)
+  | .any, .tags ts => balancedFrom 0 ts
+  | .nameValue dt, .seq [some (.prim lvt data), value] =>
+    leafOK 7 lvt data &&
+    (match value with
+     | none => true
+     | some (.atom a l d) => a ≤ 12 && leafOK a l d
+     | some (.seq fs) => conf dt (.seq fs)
+     | some _ => false)
+  | _, _ => false
+
+def conformsF (env : Env) : Nat → Nat → Val → Bool
+  | 0, _, _ => false
+  | fuel + 1, τ, v =>
+    match env[τ]? with
+    | none => false
+    | some d => conformsDef env (conformsF env fuel) d v
+
+/-- `v` is a structurally valid value of class `env[τ]` -/
+def conforms (env : Env) (τ : Nat) (v : Val) : Bool := conformsF env (τ + 1) τ v
+
+/-- the follow-set side condition: what comes after the encoding is the end, a
+    closing tag, or a tag none of the given patterns matches -/
+def safe (S : List Pat) : List Tag → Bool
+  | [] => true
+  | t :: _ => t.cls == .closing || S.all fun p => !p.matches t
 
 end BacVerif.SchemaWF
